@@ -34,6 +34,19 @@ type Env struct {
 	A, B chainx.Key
 	Keys []chainx.Key
 	NTx  int64
+	// AutoCommit: every transaction is delivered in its own block which is committed (no open block, no Push).
+	AutoCommit bool
+}
+
+// NewEnvCommitted is NewEnv for confirmation runs: no block is left open, every tx gets its own committed block.
+func NewEnvCommitted(pkgs []Pkg) (*Env, error) {
+	e, err := NewEnv(pkgs)
+	if err != nil {
+		return nil, err
+	}
+	e.C.EndBlockCommit()
+	e.AutoCommit = true
+	return e, nil
 }
 
 // NewEnv creates a chain with pkgs deployed at genesis (in order) and opens block 1 (never committed:
@@ -74,7 +87,13 @@ type Res struct {
 func (e *Env) deliver(msg std.Msg) Res {
 	tx := e.C.MakeTx(e.Keys, []std.Msg{msg}, chainx.TxOpt{GasWanted: 200_000_000})
 	t0 := time.Now()
+	if e.AutoCommit {
+		e.C.BeginBlock()
+	}
 	r := e.C.DeliverTx(tx)
+	if e.AutoCommit {
+		e.C.EndBlockCommit()
+	}
 	TxNanos.Add(int64(time.Since(t0)))
 	e.NTx++
 	return Res{OK: r.Error == nil, Data: string(r.Data), Log: r.Log, Gas: r.GasUsed, Raw: r}
